@@ -343,7 +343,7 @@ def run_batch(case, ctx):
                 ctx.count("explicit_resets")
                 continue
             mark = tap.mark()
-            getattr(det, op)(X if (pin is not None and X is pin) else (X.astype(idt) if idt else (X.astype(np.float32) if (f32 and i > 0 and op == "update") else X.copy())))
+            getattr(det, op)(X if (pin is not None and X is pin) else (X.astype(idt) if idt else (X.astype(np.float32) if (f32 and i > 0 and op == "update" and model is not None) else X.copy())))
             ev = tap.since(mark)
             log.append([op, X.tolist() if X.size <= 200 else "omitted(%s)" % (X.shape,)])
             base = dict(params=kw, calls=log, step=i, dtype=idt, float32_tests=f32)
